@@ -2711,9 +2711,27 @@ class Partitions(Expr):
 
     def _simplify_down(self):
         from dask_expr import SetIndexBlockwise
+        from dask_expr._indexing import LocBase
+        from dask_expr._resample import ResampleAggregation
 
-        if isinstance(self.frame, Blockwise) and not isinstance(
-            self.frame, (BlockwiseIO, Fused, SetIndexBlockwise)
+        # Operations whose tasks depend on the partition number (or on
+        # neighbouring partitions) can't be applied to a selection of partitions
+        partition_dependent = (
+            MapOverlap,
+            Sample,
+            Split,
+            LocBase,
+            ResampleAggregation,
+        )
+        if (
+            isinstance(self.frame, Blockwise)
+            and not isinstance(
+                self.frame, (BlockwiseIO, Fused, SetIndexBlockwise) + partition_dependent
+            )
+            and not (
+                isinstance(self.frame, MapPartitions)
+                and self.frame._has_partition_info
+            )
         ):
             operands = [
                 (
